@@ -24,13 +24,82 @@ ASSUMPTIONS = [
 ]
 MANIFEST = {'text': 'proof (all normal paths) of the structural conditions under which a full channel can only delay: try_send exists only in the helper, the helper re-sends the very value returned by '
                     'Full with a blocking send, every pipeline outflow in the binary is that helper or a blocking send, each stage inspects send results, contains no other blocking call, and is linear in messages.'
-                    ' Added: the lifecycle stage queues a received message without a send attempt only while a lifecycle is unconfirmed (so a vanished consumer is noticed). Added: the lifecycle stage hands no message to the outflow while the table has unrefreshed updates, and publishes after every un-buffering before any outflow call (what the next stage reads from the table does not depend on the pacing; same discipline as C06 T1/T2/T4). Added: the remote close drains the pipeline output until Disconnected before it joins any stage thread (shared with C15 R3).'}
+                    ' Added: the lifecycle stage queues a received message without a send attempt only while a lifecycle is unconfirmed (so a vanished consumer is noticed). Added: the lifecycle stage hands no message to the outflow while the table has unrefreshed updates, and publishes after every un-buffering before any outflow call (what the next stage reads from the table does not depend on the pacing; same discipline as C06 T1/T2/T4). Added: the remote close drains the pipeline output until Disconnected before it joins any stage thread (shared with C15 R3). Added: every refresh of the lifecycle table gets its own stamp (shared with C07 P9), so a consumer that follows the table while the stage waits on a full channel misses no publication. Added: the remote consumer hands every message it takes from the pipeline output to the per-message accounting before its next receive (no receive as a mere disconnect probe).'}
 
 TRY_SEND = re.compile(r'::try_send$')
 BLOCKING = re.compile(r'^(std::thread::sleep|std::thread::park\w*|std::thread::JoinHandle::<T>::join|std::sync::Condvar::\w+|std::sync::Mutex::<T>::lock|std::sync::Barrier::wait|'
                       r'std::sync::mpsc::Receiver::<T>::(recv_timeout|try_recv|recv_deadline)|std::thread::yield_now|std::sync::mpsc::SyncSender::<T>::try_send)$')
 HELPER_SIG = ('T', '&std::sync::mpsc::SyncSender<T>')
 SEND_OK = ('adlt::utils::sync_sender_send_delay_if_full', 'std::sync::mpsc::Sender::<T>::send', 'std::sync::mpsc::SyncSender::<T>::send')
+
+
+def check_consumer_keeps_received(F, S11):
+    """The channel and the blocking-send helper deliver every message once; the last receiver must not lose it again.  A
+    `try_recv()` used to ask "has the sender hung up?" returns Ok(msg) whenever a message arrived in the meantime - matched only
+    against Err(Disconnected) that message is dropped, and whether one is there is pure pacing."""
+    from cfg import CFG
+    from facts import Operand
+    b = F.get('adlt_bin::remote::process_file_context')
+    if b is None:
+        S11.violation(('anchor-lost', 'process_file_context'), 'remote consumer process_file_context not found')
+        return
+    S11.fn(b.path)
+    cfg = CFG(b)
+    bodies = [b] + list(F.closures_of(b.path))
+    recvs = []
+    for blk in b.calls():
+        p = blk.term.callee.path
+        a0 = (blk.term.args[0].ty or '') if blk.term.args else ''
+        if re.search(r'^std::sync::mpsc::Receiver::<T>::(recv|try_recv|recv_timeout|recv_deadline)$', p) and 'adlt::dlt::DltMessage' in a0:
+            recvs.append((blk, 0))          # Result: Ok = 0
+        elif p == 'std::iter::Iterator::next' and re.search(r'mpsc::(TryIter|Iter|IntoIter)<.*DltMessage', a0):
+            recvs.append((blk, 1))          # Option: Some = 1
+    S11.floor('receives from the pipeline output in the remote consumer', len(recvs), 1)
+    keep = set()
+    for blk in b.calls():
+        p = blk.term.callee.path
+        if p.endswith('EacStats::add_msg'):
+            keep.add(blk.i)
+        elif p in ('std::ops::FnMut::call_mut', 'std::ops::Fn::call', 'std::ops::FnOnce::call_once') and blk.term.callee.resolved:
+            cl = F.get(blk.term.callee.resolved)
+            if cl is not None and any(x.term.callee.path.endswith('EacStats::add_msg') for x in cl.calls()):
+                keep.add(blk.i)             # `let mut add_msg = |msg| { stats.add_msg(&msg); .. }`
+    S11.floor('per-message accounting calls (EacStats::add_msg) in the remote consumer', len(keep), 1)
+    rset = set(x.i for (x, _) in recvs)
+    for (blk, okv) in recvs:
+        S11.sites += 1
+        t = blk.term
+        nxt = t.d.get('t')
+        if nxt is None:
+            continue
+        # the switch on the discriminant of the result
+        sw = b.blocks[nxt]
+        hops = 0
+        while sw.term.k == 'goto' and hops < 3:
+            sw = b.blocks[sw.term.d['t']]
+            hops += 1
+        ok_targets = []
+        if sw.term.k == 'switch':
+            for v, tg in sw.term.d['vals']:
+                if v == okv:
+                    ok_targets.append(tg)
+            if not ok_targets and okv not in [v for v, _ in sw.term.d['vals']]:
+                ok_targets.append(sw.term.d['otherwise'])
+        else:
+            ok_targets = [nxt]
+        lost = None
+        for tg in ok_targets:
+            if tg in keep:
+                continue
+            region = cfg.reachable_from(tg, avoid=keep)
+            hit = [x for x in region if x in rset or x in cfg.exits]
+            if hit:
+                lost = hit[0]
+        if lost is not None:
+            S11.violation(('received-message-not-kept', b.path, t.callee.path.split('::')[-1]), 'process_file_context takes a message from the pipeline with %s at %s and can reach %s without handing it to the per-message accounting: '
+                          'a message that happens to be queued at that moment is dropped by the last consumer' % (t.callee.path.split('::')[-1], b.loc(t.sp), 'the next receive' if lost in rset else 'the return'), where=b.loc(t.sp))
+        else:
+            S11.ok(sample={'receive_at': b.loc(t.sp), 'ok_value': 'reaches EacStats::add_msg before the next receive / return'})
 
 
 def find_helper(F):
@@ -80,6 +149,12 @@ def run(F, chk):
         c06.check_table_discipline(F, b, S7, S8, T3s, T4s)
         for v in T4s.violations:
             S7.violation(('closure-leaves-dirty',) + tuple(v['key'].split('|')[2:]), v['msg'], where=v.get('where'))
+    S11 = chk.rule('S11', 'remote consumer: every message taken from the output channel of the pipeline (recv / try_recv / recv_timeout / iteration) reaches the per-message accounting (EacStats::add_msg) before the next receive or the return - no receive is used as a mere probe whose Ok value is thrown away')
+    check_consumer_keeps_received(F, S11)
+    S10 = chk.rule('S10', 'lifecycle stage: every refresh of the table gets its own stamp (refresh index incremented before the next publication / hand-over): a consumer following the table while the stage is held up by a full channel sees every publication (shared with C07 P9)')
+    import c07
+    for b in lcstage.find_stage(F):
+        c07.check_refresh_stamp(F, lcstage.Stage(F, b), S10)
     # S9: "when the consumer disappears, every stage terminates" - the remote `close` is the consumer going away on purpose: it must
     # keep emptying the output channel until every sender is gone (Disconnected) and join the stage threads only afterwards
     S9 = chk.rule('S9', 'remote close: the pipeline output is drained in a loop left only on Disconnected, and no stage thread is joined before that (a stage blocked in a full bounded channel can only finish while someone still receives); same rule as C15 R3')
